@@ -65,6 +65,14 @@ def units(rng, tier):
                 us.append(U("objective_value", {"o": o, "ok": k, "sums": list(s), "sorted": 0, "kind": kind}, "long-vectors"))
                 if srt:
                     us.append(U("objective_value", {"o": o, "ok": k, "sums": list(s), "sorted": 1, "kind": kind}, "long-vectors/sorted"))
+    # huge integers (around 2^62, 2^63, 2^64, 10^30): the documented quantity is an exact integer; fixed-width arithmetic wraps around or rounds here
+    for _ in range(60 if tier == "quick" else 600):
+        n = rng.randint(2, 6)
+        base = rng.choice([2 ** 62, 2 ** 62, 2 ** 63, 2 ** 63 - 1, 2 ** 64, 10 ** 30, 2 ** 61])
+        s = [base + rng.randint(-5, 5) if rng.random() < 0.7 else rng.randint(0, 9) for _ in range(n)]
+        if rng.random() < 0.3:
+            s.sort()
+        us.extend(units_for_vector(s, rng, [rng.choice(["list", "tuple"])], "huge-integers"))
     # weighted objective
     nw = 200 if tier == "quick" else 2000
     for _ in range(nw):
